@@ -36,6 +36,7 @@ def tasks(tier):
     perms = list(it.permutations(range(3)))
     pairs = [(perms[0], perms[0]), (perms[3], perms[1]), (perms[5], perms[2])] if tier == "quick" else [(a, b) for a in perms for b in perms]
     t += [("t_orthorhombic", {"perm_d": list(a), "perm_v": list(b), "signs": [1, -1, 1]}) for a, b in pairs]
+    t += [("t_orthorhombic", {"perm_d": [0, 1, 2], "perm_v": [0, 1, 2], "signs": [1, 1, 1], "series": 2})]
     return t
 
 
@@ -167,7 +168,7 @@ def t_frame_invariance(sess, axis=None):
     sess.outside_claim("|x| itself under rotation: norm preservation of rotate() is decided in C11 (thorough); frame-independence of the class percentages and of the axis for general (non-orthorhombic) tensors depends on LAPACK's eigenvector selection")
 
 
-def t_orthorhombic(sess, perm_d, perm_v, signs):
+def t_orthorhombic(sess, perm_d, perm_v, signs, series=1):
     """Full real function on a tensor that is orthorhombic in the working frame; LAPACK may return the
     principal axes in any order and sign (enumerated: signed permutation matrices)."""
     mods = pydrex_modules()
@@ -196,18 +197,28 @@ def t_orthorhombic(sess, perm_d, perm_v, signs):
 
         def eigh(self, m, **kw):
             self.n += 1
-            V = vmat(perm_d, signs) if self.n == 1 else vmat(perm_v, [1, 1, 1])
+            V = vmat(perm_d, signs) if self.n % 2 == 1 else vmat(perm_v, [1, 1, 1])
             return sarr(np.zeros(3)), V
 
     def fn():
-        C = sarr(np.zeros((6, 6)))
-        names = {(0, 0): "c11", (1, 1): "c22", (2, 2): "c33", (0, 1): "c12", (0, 2): "c13", (1, 2): "c23", (3, 3): "c44", (4, 4): "c55", (5, 5): "c66"}
-        for (i, j), n in names.items():
-            C[i, j] = real(n)
-            C[j, i] = real(n)
-        sym.ctx().assume((C[0, 0] > 0).z3())
-        out = diag.elasticity_components(sarr(np.array([C.view(np.ndarray)], dtype=object)))
-        return C, out
+        la.n = 0
+        Cs = []
+        for k in range(series):
+            if series > 1 and k == 0:
+                # first matrix of the series: the built-in (axis-aligned orthorhombic) olivine stiffness, concrete
+                from .C10 import _real_stiffness
+
+                Cs.append(sarr(_real_stiffness().olivine).view(np.ndarray))
+                continue
+            C = sarr(np.zeros((6, 6)))
+            names = {(0, 0): "c11", (1, 1): "c22", (2, 2): "c33", (0, 1): "c12", (0, 2): "c13", (1, 2): "c23", (3, 3): "c44", (4, 4): "c55", (5, 5): "c66"}
+            for (i, j), n in names.items():
+                C[i, j] = real(f"{n}_{k}" if series > 1 else n)
+                C[j, i] = C[i, j]
+            sym.ctx().assume((C[0, 0] > 0).z3())
+            Cs.append(C.view(np.ndarray))
+        out = diag.elasticity_components(sarr(np.array(Cs, dtype=object)))
+        return Cs, out
 
     la = PermLa()
     with np_installed(diag, tensors), patched((diag, "la", la)):
@@ -223,22 +234,25 @@ def t_orthorhombic(sess, perm_d, perm_v, signs):
         C, out = p.value
         if not reached:
             reached = sess.satisfiable(f"{pt}: reach", p.pc).verdict == "sat"
-        g = lambda key: out[key][0]  # noqa: E731
-        if g("percent_monoclinic") is None:
-            # no permutation improved on the initial distance: the percentages were never written
-            sess.prove(f"{pt}: some axis permutation is accepted (outputs are written; the path where none is requires a vanishing hexagonal projection, impossible for positive-definite tensors)", p.pc, z3.BoolVal(False), tags={"optional": True}, timeout_ms=10000)
-            continue
-        sess.prove(f"{pt}: monoclinic and triclinic parts vanish", p.pc, z3.And(eq(g("percent_monoclinic"), 0), eq(g("percent_triclinic"), 0)))
         rules = poly.Rules()
         for _, (arg, res) in sym_sqrt_apps(p):
             rules.square(R(res), R(arg))
-        sq = lambda v: R(v) * R(v)  # noqa: E731
-        parts = sq(g("percent_hexagonal")) + sq(g("percent_tetragonal")) + sq(g("percent_orthorhombic")) + sq(g("percent_monoclinic")) + sq(g("percent_triclinic"))
-        sess.prove_nf(f"{pt}: squared class percentages add up to the squared percent anisotropy", p.pc, rules, [parts], [sq(g("percent_anisotropy"))])
-        ax = [R(v) for v in out["hexagonal_axis"][0]]
-        conc = all(a.concrete for a in ax)
-        sess.prove(f"{pt}: hexagonal axis is a unit vector along one of the principal (coordinate) axes", p.pc,
-                   z3.BoolVal(conc and sorted(abs(float(a.v)) for a in ax) == [0.0, 0.0, 1.0]))
+        for mi in range(series):
+            pm = f"{tag} path {k}" + (f" matrix {mi}" if series > 1 else "")
+            g = lambda key, mi=mi: out[key][mi]  # noqa: E731
+            if g("percent_monoclinic") is None:
+                # no permutation improved on the initial distance: the percentages were never written
+                sess.prove(f"{pm}: some axis permutation is accepted (outputs are written; not writing them requires a vanishing hexagonal projection, impossible for positive-definite tensors)",
+                           p.pc, z3.BoolVal(False), tags={"optional": True}, timeout_ms=10000)
+                continue
+            sess.prove(f"{pm}: monoclinic and triclinic parts vanish", p.pc, z3.And(eq(g("percent_monoclinic"), 0), eq(g("percent_triclinic"), 0)))
+            sq = lambda v: R(v) * R(v)  # noqa: E731
+            parts = sq(g("percent_hexagonal")) + sq(g("percent_tetragonal")) + sq(g("percent_orthorhombic")) + sq(g("percent_monoclinic")) + sq(g("percent_triclinic"))
+            sess.prove_nf(f"{pm}: squared class percentages add up to the squared percent anisotropy", p.pc, rules, [parts], [sq(g("percent_anisotropy"))])
+            ax = [R(v) if v is not None else None for v in out["hexagonal_axis"][mi]]
+            conc = all(a is not None and a.concrete for a in ax)
+            sess.prove(f"{pm}: hexagonal axis is a unit vector along one of the principal (coordinate) axes", p.pc,
+                       z3.BoolVal(conc and sorted(abs(float(a.v)) for a in ax) == [0.0, 0.0, 1.0]))
     if not reached:
         sess.reach.append(type("Q", (), {"name": f"{tag}: reach", "verdict": "unknown", "secs": 0.0})())
     sample(sess, obligation="orthorhombic decomposition", config=tag, paths=len(paths))
@@ -275,4 +289,15 @@ def replay_rotated(case):
             ax, ax0 = out["hexagonal_axis"][0], ref["hexagonal_axis"][0]
             if abs(abs(ax @ (Q @ ax0)) - 1) > 1e-6:
                 problems.append(f"{nm}: hexagonal axis does not co-rotate")
+    # a series of matrices in one call must give the same result as decomposing each matrix alone
+    rots = Rotation.random(3, random_state=9).as_matrix()
+    series = [tensors.elastic_tensor_to_voigt(tensors.rotate(tensors.voigt_to_elastic_tensor(getattr(st, nm)), Q)) for nm, Q in
+              (("olivine", np.eye(3)), ("enstatite", rots[0]), ("olivine", rots[1]), ("enstatite", np.eye(3)), ("olivine", rots[2]))]
+    for order in (series, series[::-1]):
+        batch = pydrex.elasticity_components(np.array(order))
+        for i, C in enumerate(order):
+            alone = pydrex.elasticity_components(np.array([C]))
+            for key in batch:
+                if not np.allclose(batch[key][i], alone[key][0], rtol=1e-9, atol=1e-9, equal_nan=False):
+                    problems.append(f"series call: entry {i} '{key}' differs from the single-matrix result")
     return {"reproduced": bool(problems), "detail": sorted(set(problems))[:5] or "decomposition correct and frame independent on the replay inputs"}
